@@ -181,12 +181,14 @@ def run(ctx):
             ctx.count("location-headers")
     finally:
         hs.send({"op": "close"}); hs.close()
-    urls = []
+    # queries made of malformed pairs only, of empty pairs, of separators only (each pair may be dropped by the canonicaliser)
+    urls = ["http://h.example/p?" + q for q in ["&", "&&&", "%", "%zz=1", "a;b=1", ";", "=", "=&=", "%=%", "%zz", "a;b", "&;&", "%41;%42", "\x00", "%00", "+", "a=%", "%=a", "?", "#"]]
+    urls += ["http://h.example/p?" + "&".join(r.choice(["%zz=1", "a;b", "%", ";", "", "=", "ok=1", "%4", "x=%g1"]) for _ in range(r.randrange(1, 5))) for _ in range(60)]
     for k in range(3000 if ctx.thorough() else 300):
         ln = r.choice([0, 1, 5, 20, 200])
         s = "".join(chr(r.choice([r.randrange(1, 128), r.randrange(1, 128), r.randrange(128, 0x2000), 0x2f, 0x3a, 0x25, 0x3f, 0x23, 0x40, 0x5b, 0x5d])) for _ in range(ln))
         urls.append(r.choice(["", "http://", "https://", "//", "HTTP://", "ftp://"]) + s)
-    lines = [json.dumps({"op": "norm", "url": u, "parent": r.choice(["", "http://p.example/a/b?c", "https://p.example"])}) for u in urls]
+    lines = [json.dumps({"op": "norm", "raw": u, "parent": r.choice(["", "http://p.example/a/b?c", "https://p.example"])}) for u in urls]
     rc, out, err = core.run_impl("url", lines, timeout=900)
     ctx.count("normaliser-inputs", len(lines))
     if rc != 0 or len(out) != len(lines):
